@@ -8,6 +8,13 @@ pub mod utils {
     verus!{
 //@EXTRACT src/utils.rs :: type Hash
 //@END
+    pub open spec fn sorted(s: Seq<Hash>) -> bool { forall|i: int, j: int| 0 <= i < j < s.len() ==> s[i] <= s[j] }
+    // T (utils::bin_lookup = slice::binary_search(..).is_ok()): membership, on a sorted slice
+    #[verifier::external_body]
+    pub fn bin_lookup(arr: &[Hash], elt: Hash) -> (r: bool)
+        requires sorted(arr@)
+        ensures r == arr@.contains(elt)
+    { unimplemented!() }
     }
 }
 
